@@ -46,6 +46,21 @@ CLAIMED = {
             "Every generated batch runs the real tokenizer / token_groups_to_sparse_coo_matrix / padding_mask / tensorize and is judged by structural invariants recomputed independently. Held on the executions listed in the evidence.",
             "trusted: unicode-segmentation; padding-mask polarity and matrix width are left free as the statement does not fix them.",
             "DESIGN.md 6/C17"),
+    "C02": ("exploration",
+            "runtime round-trip oracle: real BPETokenizer built from generated / adversarial / train_bpe-produced merge tables; decode == input (modulo trailing whitespace), id range and vocab byte concatenation checks",
+            "Every case builds real tokenizers from a merge file written in the repo's own format and checks losslessness on 5-24 strings; held on the (table, string) pairs listed in the evidence.",
+            "trusted: the generator's notion of a well-formed table; char::is_whitespace == regex \\s (Unicode White_Space).",
+            "DESIGN.md 6/C02"),
+    "C03": ("exploration",
+            "differential runtime oracle: real BPETokenizer ids vs an independent quadratic lowest-id/leftmost reference BPE (no regex, no heap) on tables with dense overlapping/competing merges",
+            "Every (table, string) pair compares the real token ids with the reference merge loop for equality; held on the pairs listed in the evidence (hundreds of thousands of words with multi-level merges per quick run).",
+            "trusted: the reference BPE in the harness; tables keyed by concatenation as in the repo.",
+            "DESIGN.md 6/C03"),
+    "C15": ("exploration",
+            "allowed-outcome-set oracle: every real edit_word call (chains of up to 6 on one seeded rng, real Insert/Replace/Delete/Swap providers) must be a member of the enumerated legal single edits with the prescribed exclusion set; direct provider calls vs table lookup; real SpellingCorruption pipeline for no-panic/determinism; release-profile lane in thorough",
+            "Each step of each chain is judged by membership in an enumerated set of allowed outcomes plus the protection clause on the re-segmented result; held on the calls listed in the evidence.",
+            "trusted: unicode-segmentation; every insertion position is treated as legal (the statement allows 'unchanged or one edit').",
+            "DESIGN.md 6/C15"),
 }
 
 PENDING_REASON = "monitor not built yet in this session (planned in DESIGN.md section 6); not claimed until its check exists and is silent on the unchanged tree"
